@@ -401,30 +401,63 @@ class Verifier:
                     hops += 1
         return out
 
+    # accessor names usable inside trigger patterns -> z3 declaration names
+    PAT_FUNCS = {'py_str': 'py_s', 'py_keys': 'py_keys', 'py_vals': 'py_vals',
+                 'py_items': 'py_items'}
+
+    def match_pattern(self, pat, t, b):
+        """one-way matching of a trigger argument pattern against a term:
+        a parameter name, xs[i] (seq.nth) or an accessor applied to a
+        pattern.  -> extended binding or None"""
+        if isinstance(pat, ast.Name):
+            if pat.id in b:
+                if not b[pat.id].eq(t):
+                    # big objects may be equal without being the same term:
+                    # keep the first binding and let congruence in the
+                    # solver connect them
+                    if t.sort() in (so.I, so.S, so.B):
+                        return None
+                return b
+            b = dict(b)
+            b[pat.id] = t
+            return b
+        if not z3.is_app(t):
+            return None
+        if isinstance(pat, ast.Subscript):
+            if t.decl().kind() != z3.Z3_OP_SEQ_NTH or t.num_args() != 2:
+                return None
+            b = self.match_pattern(pat.value, t.arg(0), b)
+            if b is None:
+                return None
+            return self.match_pattern(pat.slice, t.arg(1), b)
+        if isinstance(pat, ast.Call) and isinstance(pat.func, ast.Name):
+            want = self.PAT_FUNCS.get(pat.func.id)
+            if want is None or t.decl().name() != want or \
+                    t.num_args() != len(pat.args):
+                return None
+            for pa, ta in zip(pat.args, t.children()):
+                b = self.match_pattern(pa, ta, b)
+                if b is None:
+                    return None
+            return b
+        return None
+
     def match_triggers(self, lem, all_apps):
         """bindings of the lemma parameters such that every trigger pattern
-        f(p1..pk) (arguments are parameter names) matches an application"""
+        f(p1..pk) (arguments are parameter names, or patterns xs[i] /
+        accessor(pattern)) matches an application"""
         results = [{}]
         for trig in lem.triggers:
             fname = trig.func.id
-            argnames = [a.id for a in trig.args]
             new = []
             for b in results:
                 for app in all_apps.get(fname, []):
-                    b2 = dict(b)
-                    okm = True
-                    for nm, t in zip(argnames, app.children()):
-                        if nm in b2:
-                            if not b2[nm].eq(t):
-                                # big objects may be equal without being the
-                                # same term: keep the first binding and let
-                                # congruence in the solver connect them
-                                if t.sort() in (so.I, so.S, so.B):
-                                    okm = False
-                                    break
-                        else:
-                            b2[nm] = t
-                    if okm:
+                    b2 = b
+                    for pa, t in zip(trig.args, app.children()):
+                        b2 = self.match_pattern(pa, t, b2)
+                        if b2 is None:
+                            break
+                    if b2 is not None:
                         new.append(b2)
             results = new
             if len(results) > 200:
